@@ -47,6 +47,8 @@ def attr_batch(ent, inputs, found):
     d = _W['d']
     if not inputs:
         return
+    if d.recycle_if_big():
+        _W['started'] = False
     try:
         _ensure_sup(d)
         d.cmd('E %s 0' % ent)
@@ -71,12 +73,24 @@ def attr_batch(ent, inputs, found):
 
 
 def attr_job(job):
-    kind, ent, chunk = job
+    """job = (kind, entity, n, prefix): all strings of length n over ALPHA that start with prefix, each before ',' and ')'
+    (generated here, in the worker: the whole space does not fit into the parent's memory)"""
+    kind, ent, n, prefix = job
     found = []
-    t0 = time.time()
-    for i in range(0, len(chunk), 2000):
-        attr_batch(ent, chunk[i:i + 2000], found)
-    return kind, len(chunk), found
+    batch = []
+    count = 0
+    for t in itertools.product(ALPHA, repeat=n - len(prefix)):
+        s = prefix + ''.join(t)
+        batch.append(s + ',')
+        batch.append(s + ')')
+        if len(batch) >= 4000:
+            count += len(batch)
+            attr_batch(ent, batch, found)
+            batch = []
+    if batch:
+        count += len(batch)
+        attr_batch(ent, batch, found)
+    return kind, count, found
 
 
 def all_strings(L):
@@ -88,8 +102,16 @@ def all_strings(L):
 # ------------------------------------------------------------------ file-level cases
 
 def file_case(case):
+    res = _file_case(case)
+    if res.get('crash') and res['crash'][0] == 'SIGKILL':
+        res = _file_case(case)          # killed from outside (OOM killer): decide on a re-run alone
+    return res
+
+
+def _file_case(case):
     """read (+write) one file on the san p21drv; returns {'crash':..} or timing info"""
     d = p21run._G['d']
+    d.recycle_if_big()
     text = case['text']
     if isinstance(text, str):
         text = text.encode('latin1')
@@ -237,14 +259,16 @@ def main():
     fam = smodel.family_K('fk', pairs='core')
     lib = build.schema_lib(fam.express(), 'san')
     # ---- (a) attribute seam
-    strings = list(all_strings(L))
     jobs = []
     for kind in kinds:
         ent = 'E_' + kind.upper()
-        inputs = [s + d for s in strings for d in (',', ')')]
-        for i in range(0, len(inputs), 8000):
-            jobs.append((kind, ent, inputs[i:i + 8000]))
-    chk.bounds['attr_seam'] = {'max_len': L, 'kinds': len(kinds), 'strings_per_kind': len(strings) * 2}
+        for n in range(0, L + 1):
+            if n <= 2:
+                jobs.append((kind, ent, n, ''))
+            else:
+                for pre in itertools.product(ALPHA, repeat=2):
+                    jobs.append((kind, ent, n, ''.join(pre)))
+    chk.bounds['attr_seam'] = {'max_len': L, 'kinds': len(kinds), 'strings_per_kind': sum(len(ALPHA) ** n for n in range(L + 1)) * 2}
     with mp.get_context('fork').Pool(common.NCPU, initializer=_init, initargs=(lib.dir,)) as pool:
         for kind, n, found in pool.imap_unordered(attr_job, jobs):
             chk.count(states=n, transitions=n)
